@@ -268,10 +268,11 @@ def run(ctx, out, tier):
     av = ctx.facts.body("blockwatch::flags::Args::validate")
     main = ctx.facts.bodies.get("bwbin::main")
     if av is not None:
+        av = ctx.inl(av, skip=ctx.domain_api, tag="domain", sugar=True)
         found = False
         for bi, j, s in av.assigns():
             rv = s["rv"]
-            if s["lhs"]["l"] == 0 and rv["k"] == "agg" and rv.get("variant") == "Err":
+            if s["lhs"]["l"] in util.return_slots(av) and rv["k"] == "agg" and rv.get("variant") == "Err":
                 for br, vals, e in util.guards(ctx, av, bi):
                     txt = render(e, 500)
                     if re.search(r"HashSet::contains\(supported_extensions", txt) and ".1" in txt:
